@@ -36,7 +36,11 @@ PROPS["C04"] = dict(
          "single/composite/absent key) related by identity/emptiness/random edits/nested/disjoint/block-edge deletions, "
          "diffed with diff.DiffTables; one case in eight diffs tables RECEIVED through the real packfile sender/receiver (one or both sides; columns shuffled so "
          "that the key is not the leading columns); non-trivial = a side is empty, or a side has >=2 blocks, or the diff has added, "
-         "removed and modified rows together; distinct = distinct (op, input)",
+         "removed and modified rows together; distinct = distinct (op, input); in addition, at one index in twelve each: "
+         "a pair whose first table has duplicated keys around its block edges and whose second starts at / next to such a key; a pair with "
+         "a zero-row side; a pair diffed on a store that fails (op diff-fault: every read from the k-th on, the k-th read alone, or every read "
+         "of one object, for every k of the clean run up to 8 fault points): each run reports an error or satisfies every clause, and what it "
+         "emitted before a reported error is a prefix of the model's event list",
     modelled="pkg/diff/iterate.go (findOverlappingBlocks, getBlockIndices, iterateAndMatch), pkg/diff/diff.go (diffRows), objects.BlockIndex.Get",
     assumptions=["meow hashes of distinct keys/rows of a run are distinct (hash values are taken from the Go run)",
                  "column comparison / non-equal-column diffs (CompareColumns) are outside this model"],
@@ -122,7 +126,10 @@ PROPS["C03"] = dict(
     quick_n=240, thorough_n=3000, rule=_INGEST_RULE + "; producers: ingest, and (one case in four) receipt over the wire: the table is ingested in a source store, "
          "sent through the real ObjectSender/ObjectReceiver (1..2 transfers, packfile size limits, stray blocks or a block-sharing earlier table "
          "at the destination) and the DESTINATION's copy is examined, half of them with shuffled columns so that the key is not the leading "
-         "columns (merge results and doctor re-ingest are exercised by C05/C07 runs)",
+         "columns (merge results and doctor re-ingest are exercised by C05/C07 runs); in addition, at one index in eight each: "
+         "a table with one cell of 65535 / 65536 / 65537 bytes (in the key of the row that sorts last, elsewhere in that row, anywhere), and a "
+         "table the destination holds (received or ingested there) examined AFTER a later receipt of a table sharing its blocks was refused "
+         "(the packfile lacks a block the sender took for common; the later table names a block index sum that is not its block's)",
     modelled="sorter block cutting and block keys, objects.IndexBlockFromBytes/IndexBlock (as the invariant they establish), doctor.diagnoseCommit (observed)",
     assumptions=["row and key hashes are recomputed by the harness with meow over the string-list encoding"],
 )
